@@ -1,6 +1,7 @@
 import Rough.Props.GenBasic
 import Rough.Bridge.Client
 import Rough.Props.C01
+import Rough.Props.C03
 /-
   Property theorems stated directly about the Lean code REGENERATED FROM /repo's RUST SOURCE on every run
   (`Gen.*`, Rough/Generated/Src/*.lean), obtained by composing a bridge theorem of Rough/Bridge/*.lean (generated
@@ -49,6 +50,81 @@ theorem GEN_client_sound (S : SigScheme) (H : Bytes → Bytes) (hH : ∀ x, (H x
   have := Props.C01.C01_sound S H ver pk nonce request dg hdg o ho
   rw [hp]
   exact this
+
+
+/-! ### C03 — the generated client builds well-formed requests and accepts every honest reply -/
+
+/-- C03 (request well-formedness) for the translated code, with SHA-512 as the parameter `H` (64-byte outputs): for
+    a nonce of the protocol's length (64 bytes classic / 32 bytes draft-13), with or without a 32-byte pinned key,
+    and for either value of the `text_dump` flag (it only prints), the generated `make_request` returns — does not
+    panic — a request that is 1024 bytes (classic) / 1036 bytes (draft-13: 1024 + the 12-byte RFC frame) long, hence
+    inside the server's 1024..1500 window, and that the reference classification `Spec.RT.classifyRequest` of a
+    server whose SRV value is the hash of the pinned key (any server if no key is pinned) classifies `must nonce`,
+    in the protocol the client was asked to speak.  This is the conclusion of `C03_request_wellformed` for the bytes
+    the generated function returns (bridge `make_request_sim` ∘ `C03_request_wellformed`). -/
+theorem GEN_client_request_wellformed (S : SigScheme) (H : Bytes → Bytes) (hH : ∀ x, (H x).length = 64)
+    (ver : Version) (nonce : Bytes) (hn : nonce.length = ver.nonceLen) (text_dump : Bool) (pk? : Option Bytes)
+    (hpk : ∀ pk, pk? = some pk → pk.length = 32) (srv : Bytes)
+    (hsrv : ∀ pk, pk? = some pk → srv = (H ((0xff : UInt8) :: pk)).take 32) :
+    ∃ req, Gen.make_request S H ver nonce text_dump pk? = .ok req ∧
+      req.length = (match ver with | .google => 1024 | .ietf => 1036) ∧
+      Spec.RT.classifyRequest (ServerSpec.protoOfVer ver) srv req = .must nonce ∧
+      Spec.RT.protoOf req = ServerSpec.protoOfVer ver := by
+  obtain ⟨req, hreq, hrest⟩ := Props.C03.C03_request_wellformed H hH ver nonce hn pk? hpk srv hsrv
+  refine ⟨req, ?_, hrest⟩
+  exact eq_ok_of_sim (hreq ▸ make_request_sim S H hH ver nonce text_dump pk?)
+
+/-- the reference responder's reply for a batch of at most 2^32 leaves and a nonce of the protocol's length fits the
+    client's 4096-byte receive buffer (classic: 368 + 64 + 64·depth ≤ 2480; draft-13: 376 + 32 + 32·depth ≤ 1432),
+    from the exact reply length `Lemmas.SpecRT.respond_length` and `depth ≤ 32` -/
+theorem respond_fits_buffer (S : SigScheme) (H : Bytes → Bytes) (hH : ∀ x, (H x).length = 64)
+    (hsig : ∀ seed m, (S.sign seed m).length = 64) (hpk : ∀ seed, (S.pk seed).length = 32)
+    (ver : Version) (ltSeed onlSeed : Bytes) (midp radi mint maxt : Nat)
+    (leaves : List Bytes) (i : Nat) (hi : i < leaves.length) (hn : leaves.length ≤ 2 ^ 32)
+    (nonce : Bytes) (hnl : nonce.length = ver.nonceLen) :
+    (Spec.RT.respond S H (ServerSpec.protoOfVer ver) ltSeed onlSeed midp radi mint maxt leaves i nonce).length
+      ≤ 4096 := by
+  have hl := Lemmas.SpecRT.respond_length S H hH hsig hpk (ServerSpec.protoOfVer ver) ltSeed onlSeed midp radi
+    mint maxt leaves i hi nonce
+  have hd := Lemmas.SpecRT.depth_le_32 leaves.length hn
+  rw [hl]
+  cases ver <;> simp only [ServerSpec.protoOfVer, Version.nonceLen] at hnl ⊢ <;> omega
+
+/-- C03 (completeness) for the translated code, with SHA-512 as the parameter `H` (64-byte outputs): the reference
+    responder's reply `RT.respond …` for ANY batch (1..2^32 leaves) in which the client's request sits at ANY
+    position `i` — under all the hypotheses of `C03_accept` — placed in the client's zeroed 4096-byte receive buffer
+    (it always fits: `respond_fits_buffer`, so no length hypothesis is needed), is accepted by the generated
+    validation path (`receive_response`, `ResponseHandler::new`, `extract_time`), with or without the pinned key: it
+    returns — does not panic — exactly the signed midpoint, the signed radius and verified = (a key was supplied).
+
+    Deviation from the model-level statement: the model's `Client.Outcome` also carries `index = i`, but the
+    generated `Gen.ParsedResponse` (= the Rust `ParsedResponse` that `extract_time` returns) has only the fields
+    `verified`, `midpoint`, `radius` — the Rust `main` reads INDX from the response by itself, and the bridge's
+    `toParsed` drops it — so there is no `p.index` to state `p.index = i` about.  The three fields that exist are
+    all pinned down (the returned value is exactly `⟨pk?.isSome, midp, radi⟩`); that the INDX used in the Merkle
+    check is `i` is part of what acceptance means in the model (`C03_accept`, outcome index `i`). -/
+theorem GEN_client_accepts (S : SigScheme) (hS : S.Correct) (hv : ∀ seed, S.pkValid (S.pk seed) = true)
+    (H : Bytes → Bytes) (hH : ∀ x, (H x).length = 64)
+    (hsig : ∀ seed m, (S.sign seed m).length = 64) (hpk : ∀ seed, (S.pk seed).length = 32)
+    (ver : Version) (ltSeed onlSeed : Bytes) (hlt : ltSeed.length = 32) (hon : onlSeed.length = 32)
+    (midp radi : Nat) (hm : midp < 2 ^ 64) (hr : radi < 2 ^ 32)
+    (leaves : List Bytes) (i : Nat) (hi : i < leaves.length) (hn : leaves.length ≤ 2 ^ 32)
+    (request nonce : Bytes) (hnl : nonce.length = ver.nonceLen)
+    (hleaf : leaves[i] = (match ver with | .google => nonce | .ietf => request))
+    (pk? : Option Bytes) (hk : pk? = none ∨ pk? = some (S.pk ltSeed))
+    (dg : Bytes)
+    (hdg : dg = Spec.RT.respond S H (ServerSpec.protoOfVer ver) ltSeed onlSeed midp radi 0 (2 ^ 64 - 1) leaves i
+      nonce) :
+    dg.length ≤ 4096 ∧
+    ∃ p, genHandle S H ver pk? nonce request (dg ++ zeros (4096 - dg.length)) dg.length = .ok p ∧
+      p.midpoint = midp ∧ p.radius = radi ∧ p.verified = pk?.isSome := by
+  have hlen : dg.length ≤ 4096 := by
+    rw [hdg]
+    exact respond_fits_buffer S H hH hsig hpk ver ltSeed onlSeed midp radi 0 (2 ^ 64 - 1) leaves i hi hn nonce hnl
+  have hacc := Props.C03.C03_accept S hS hv H hH hsig hpk ver ltSeed onlSeed hlt hon midp radi hm hr leaves i hi hn
+    request nonce hnl hleaf pk? hk
+  rw [← hdg] at hacc
+  exact ⟨hlen, _, eq_ok_of_sim_map (genHandle_sim S H hH ver pk? nonce request dg hlen) hacc, rfl, rfl, rfl⟩
 
 
 end Rough.Props.GenCore
